@@ -401,7 +401,6 @@ where
     fn hash<H: hash::Hasher>(&self, state: &mut H) {
         self.owner.hash(state);
         self.class.hash(state);
-        self.ttl.hash(state);
         self.data.hash(state);
     }
 }
